@@ -24,6 +24,7 @@ import HtpModel.Lemmas.CFunsLine
 import HtpModel.Lemmas.CFunsNum
 import HtpModel.Lemmas.CFunsNormalize
 import HtpModel.Lemmas.CFunsRing
+import HtpModel.Lemmas.RefsValidOut
 
 namespace Htp.C01
 open Htp Htp.Conn Htp.Gen Htp.Decode
@@ -159,5 +160,20 @@ theorem C01_translated_ring_in_bounds (n : Nat) (hn : 0 < n) (ops : List Htp.CFu
     ∃ f, (Htp.CFuns.runC (Htp.CFuns.fieldsOf (Htp.Ring.create n)) ops).map (·.1) = some f ∧ Htp.Ring.WF (Htp.CFuns.ringOf f) := by
   obtain ⟨f, h1, h2, _⟩ := Htp.CFuns.cring_sim_fresh n hn ops (fun _ _ => by unfold Htp.CFuns.COp.ok; split <;> trivial) hK
   exact ⟨f, by rw [h1]; rfl, h2⟩
+
+/-- **C01 (no dangling transaction reference, over whole histories)**: for a connection parser from its creation - any configuration, any callback
+    policy (callbacks may destroy transactions, auto-destroy at transaction-complete included), any history of calls (request and response chunks in
+    any interleaving, gaps, close, req_close, open, tx_freed) and after every prefix of it - `in_tx` and `out_tx` are each NULL or name a
+    transaction that is still in the connection's list, and a transaction that is no longer in the list is named by neither. Proof: the
+    invariant `RefsInv` (references valid; stored uids pairwise distinct and below `nextUid`, so a fresh transaction disturbs no other) is kept by
+    every function of both directions - `destroyTx` clears the references it invalidates, the response side takes `out_tx` from a live slot or
+    from the transaction it has just created (`Lemmas/RefsValid.lean`, `RefsValidOut.lean`). This is the part of "no use after free of a
+    transaction" that lives in the logic; heap lifetimes of the C objects themselves remain with the sanitizer runs. -/
+theorem C01_history_refs_valid (cfg : Cfg) (policy : List (Nat × CbAction)) (allow : Bool) (calls pre : List Call) (hp : pre <+: calls) :
+    let c := runCalls cfg { policy := policy, allowCbDestroy := allow } pre
+    RefsValid c ∧ (∀ u, c.findTx u = none → c.inn.tx ≠ some u ∧ c.out.tx ≠ some u) := by
+  intro c
+  obtain ⟨h, _, _, h4⟩ := history_refs_valid_fresh cfg policy allow calls pre hp
+  exact ⟨h.1, h4⟩
 
 end Htp.C01
